@@ -226,8 +226,7 @@ class Analysis:
         `return expr`), binding self (and parameters) to canonical strings."""
         f = sym.f
         if isinstance(e, ast.Attribute):
-            tg = self.res.property_targets(e, f)
-            tg = _unique_impl(tg)
+            tg = self._inline_target(e.value, e.attr, f, want_property=True)
             if tg is None:
                 return None
             body = tg.body_without_docstring()
@@ -235,10 +234,7 @@ class Analysis:
                 return None
             return self._inline(sym, tg, {tg.params[0]: base_key}, body[0].value, depth)
         if isinstance(e, ast.Call) and isinstance(e.func, ast.Attribute):
-            tgs, ext = self.res.resolve_call(e, f)
-            if id(e) in self.res.byname:
-                return None
-            tg = _unique_impl(tgs)
+            tg = self._inline_target(e.func.value, e.func.attr, f, want_property=False)
             if tg is None or tg.is_static or tg.is_classmethod:
                 return None
             body = tg.body_without_docstring()
@@ -259,6 +255,28 @@ class Analysis:
                 binding[p] = sym.ev(d, None, depth + 1)
             return self._inline(sym, tg, binding, body[0].value, depth)
         return None
+
+    def _inline_target(self, recv: ast.AST, name: str, f: FuncInfo, want_property: bool) -> Optional[FuncInfo]:
+        """The single implementation every possible receiver runs: the static
+        lookup is concrete and no subclass overrides it (method or class attr)."""
+        t = self.res.type_of(recv, f)
+        cl = [a[1] for a in t if a[0] == "cls"]
+        if len(cl) != 1 or len(t) != 1:
+            return None
+        c = cl[0]
+        g = self.prog.lookup_method(c, name)
+        if g is None or g.is_abstract or g.is_property != want_property:
+            return None
+        for s in self.prog.subclasses(c):
+            if name in s.methods or name in s.class_attrs:
+                return None
+        # a class attribute shadowing it closer in the MRO
+        for k in self.prog.mro(c):
+            if name in k.class_attrs and k is not g.cls:
+                return None
+            if k is g.cls:
+                break
+        return g
 
     def _inline(self, sym: Sym, tg: FuncInfo, binding: dict, expr: ast.AST, depth: int) -> Poly:
         sub = Sym(tg, self.fa(tg).cfg, self.fa(tg).rd, inliner=self.inliner, max_depth=sym.max_depth)
